@@ -18,5 +18,6 @@ func init() {
 		rules.ErrorRecording(p, r, "C19-rec")
 		r.Assume("sort.Slice (any correct comparison sort) calls less on some pair of equal-priority elements when two exist, and on every element when n >= 2")
 		rules.EngineBuiltForEveryInput(p, r, "C19-d")
+		rules.BulkLoaderInsertsEveryObject(p, r, "C19-all")
 	})
 }
